@@ -187,6 +187,19 @@ func c05Shapes(c *chk.Ctx, rng interface{ Intn(int) int }) []*spec.Spec {
 		s.Run = spec.Run{Mode: []string{"runto", "runtoprocs"}[len(out)%2], Targets: []string{"inside"}}
 		out = append(out, s)
 	}
+	// a dependent globber behind a process with several slow tasks: it may only glob - and Run may only return -
+	// when the whole dependency stream has passed
+	{
+		s := mk("depglob", 5)
+		s.Sources["g1.dat"] = "g1\n"
+		s.Sources["g2.dat"] = "g2\n"
+		s.Procs = append(s.Procs, &spec.Proc{Name: "maker", Kind: spec.KCmd, Cmd: spec.BuildCmd("maker", in, o1, nil, nil, map[string]string{"sleep": "60"})},
+			&spec.Proc{Name: "GL", Kind: spec.KGlobber, Files: []string{"g*.dat"}, DepIn: true},
+			&spec.Proc{Name: "use", Kind: spec.KCmd, Cmd: spec.BuildCmd("use", in, o1, nil, nil, nil)})
+		s.Conns = append(s.Conns, &spec.Conn{From: "src.out", To: "maker.in"}, &spec.Conn{From: "maker.out", To: "GL.in_dep"}, &spec.Conn{From: "GL.out", To: "use.in"})
+		s.MaxTasks = 2
+		out = append(out, s)
+	}
 	// a component with its own temp directory (FileSplitter) between processes
 	{
 		s := mk("splitter", 2)
